@@ -145,6 +145,43 @@ def generate(rng, tier, idx):
         sc['partitions'] = sorted(list(p) for p in parts)
         sc['chunk_sizes'] = [1024, 70000]
         return sc
+    if rng.random() < 0.0015:
+        # more than 1 Mi characters in all (a size at which a reader may start to guard, compact or switch strategy), in long
+        # lines only: the reader re-slices its buffer per line, so short lines under one giant read would cost quadratic time
+        sc['level'] = rng.choice(['text', 'text', 'utf-8'])
+        sc['line_mode'] = False
+        sep = rng.choice(['\r\n', '\n', '\r'])
+        lines = ['h1,h2']
+        total = 0
+        target = rng.choice([1048576 + 500, 1100000, 1200000])
+        if rng.random() < 0.5:
+            ln = 'L' * rng.choice([1048576 - 40, 1048576 - 2000, 1048576, 1048576 + 3])
+            lines.append(ln)
+            total += len(ln)
+        while total < target:
+            ln = 'a' * rng.choice([1000, 3000, 20000]) + rng.choice([',b', '', ',"q"'])
+            lines.append(ln)
+            total += len(ln) + 2
+        lines += ['x,y', 'tail']
+        text = sep.join(lines) + rng.choice([sep, ''])
+        sc['text'] = text
+        sc['shape'] = 'plain'
+        sc['bufsize'] = 8192
+        n = len(text)
+        parts = set()
+        parts.add((n,))
+        for _ in range(2):
+            pieces = []
+            left = n
+            while left > 0:
+                k = min(left, rng.choice([1024, 65536, 100000, 1000, 999983, 700]))
+                pieces.append(k)
+                left -= k
+            parts.add(tuple(pieces))
+        sc['partitions'] = sorted(list(p) for p in parts)
+        sc['chunk_sizes'] = sorted(set([1024, rng.choice([1000, 4096, 65536, 100000]), n + 1]))
+        sc['giant'] = True
+        return sc
     if r < 0.55:
         sc['level'] = 'text'
         n = rng.choice([0, 1, 2, 3, 4, 5, 5, 6, 6, 7, 7, 8, 8, 9, 10, 12])
@@ -508,6 +545,8 @@ def execute(sc):
         bump(counters, 'probe.bom_dropped')
     if n >= 1000:
         bump(counters, 'probe.content_crosses_default_chunk_size')
+    if n > 1048576:
+        bump(counters, 'probe.content_over_1Mi')
     if sc.get('entry'):
         bump(counters, 'entry.' + sc['entry'])
     if sc.get('sweep'):
